@@ -4,6 +4,8 @@ package snaps
 
 import (
 	"fmt"
+	"os"
+	"path/filepath"
 	"strings"
 )
 
@@ -243,12 +245,71 @@ func c01Run(c *vfCtx, cs c01Case) {
 	}
 	if d := vfDirDiff(before, vfSnapDir(dir), true); d != "" {
 		c.violation(class(), "replay changed the snapshot directory: "+d, cs)
+		return
+	}
+	if cs.Family == "A2" && !c.thorough() && vfHashJSON(cs)%3 != 0 {
+		return // quick tier: the two phases below cover every third program of the largest family, and every program of the others
+	}
+	replay := func(what string, reset bool) bool {
+		if reset {
+			vfResetState(false, "", true)
+		}
+		before := vfSnapDir(dir)
+		mr := vfNewModel(false, "")
+		mr.files, mr.sfiles = m.files, m.sfiles
+		obs := vfRunTests(dir, mr, cs.Tests)
+		c.count("transitions", int64(len(obs)))
+		for i, o := range obs {
+			if o.Got != "pass" || len(o.Muts) > 0 {
+				c.violation(class(), fmt.Sprintf("%s: call %d (%s %q in %s) signalled %s %s, file operations [%s]", what, i+1, o.Call.API, vfClip(o.Call.Val), o.Test, o.Got, vfClip(o.ErrText), vfShowOps(o.Muts)), cs)
+				return false
+			}
+		}
+		if d := vfDirDiff(before, vfSnapDir(dir), true); d != "" {
+			c.violation(class(), what+" changed the snapshot directory: "+d, cs)
+			return false
+		}
+		return true
+	}
+	// ---- executions 2 and 3 of the same tests in the SAME process (what -count does): nothing is reset in between
+	for exec := 2; exec <= 3; exec++ {
+		if !replay(fmt.Sprintf("execution %d in one process", exec), false) {
+			return
+		}
+	}
+	// ---- "all pre-existing well-formed contents": the same entries in every other order (all permutations up to 3 entries, reversal and rotation beyond)
+	es, err := vfParse(vfSnapDir(dir)["f.snap"].Data)
+	if err != nil || len(es) < 2 {
+		return
+	}
+	var perms [][]int
+	if len(es) <= 3 {
+		perms = c10Perms(len(es))[1:]
+	} else {
+		rev, rot := make([]int, len(es)), make([]int, len(es))
+		for i := range es {
+			rev[i], rot[i] = len(es)-1-i, (i+1)%len(es)
+		}
+		perms = [][]int{rev, rot}
+	}
+	for _, p := range perms {
+		var pe []vfEntry
+		for _, i := range p {
+			pe = append(pe, es[i])
+		}
+		if err := os.WriteFile(filepath.Join(dir, "f.snap"), vfRender(pe), 0o644); err != nil {
+			panic(err)
+		}
+		c.count("permuted_files", 1)
+		if !replay(fmt.Sprintf("replay against the same entries stored in the order %v", c05IDs(pe)), true) {
+			return
+		}
 	}
 }
 
 func init() {
 	vfRegister("C01", func(c *vfCtx, emit func(c01Case)) {
-		c.rule = "every program of the families A1/A2/B/C/D/E over the line-token alphabet (DESIGN §3.1) is recorded and replayed on the real code; " +
+		c.rule = "every program of the families A1/A2/B/C/D/E over the line-token alphabet (DESIGN §3.1) is recorded, replayed in a fresh process state, executed twice more in that same process state, and replayed against every other order of the recorded entries (<= 3 entries: all permutations), on the real code; " +
 			"non-trivial = distinct programs that contain a special token (blank/terminator/escape/header-like/non-UTF-8/long line), a pre-existing entry or two tests"
 		c01Gen(c, emit)
 	}, c01Run)
